@@ -86,7 +86,10 @@ class Artefacts:
                 isinstance(v, (Expr, sympy.Basic)) for v in res.values()):
             parts = {str(k): self.of(v, dict(t, targets=None)) for k, v in res.items()}
             keys = sorted(parts)
+            anfs = [parts[k].get("anf") for k in keys]
             return {"kind": "dict", "keys": keys,
+                    "anf": None if any(x is None for x in anfs) else digest(
+                        list(zip(keys, anfs)), 10),
                     "text": digest([(k, parts[k].get("text")) for k in keys], 10),
                     "fp": digest([(k, parts[k].get("fp")) for k in keys], 10),
                     "skel": digest([(k, parts[k].get("skel")) for k in keys], 8),
@@ -110,6 +113,16 @@ class Artefacts:
         out = {"kind": "expr"}
         nm = self.w.name_map
         out["skel"], out["nterms"] = _skeleton(sym, nm)
+        if targets is not None:
+            from .alpha import normal_form
+            from adcgen.indices import Index
+            try:
+                out["anf"] = normal_form(sym, targets, nm, Index)
+            except Exception as exc:  # noqa: BLE001 - oracle must never kill a run
+                out["anf"] = None
+                out["anf_err"] = f"{type(exc).__name__}: {exc}"[:120]
+        else:
+            out["anf"] = None
         # literal text after the library's own renaming of contracted indices
         try:
             kw = {k: v for k, v in assum.items() if k != "target_idx"}
@@ -473,6 +486,14 @@ class C19Session:
                 self.viol("value", f"{tid}: value fingerprint {a['fp']} differs from the "
                           f"pristine session's {ref['fp']}; text: {a.get('full')}", template=tid)
                 return
+        if a.get("anf") is not None and ref.get("anf") is not None:
+            self.counts["H1_anf"] = self.counts.get("H1_anf", 0) + 1
+            if a["anf"] != ref["anf"]:
+                self.viol("structure", f"{tid}: alpha-normal form {a['anf']} differs from the "
+                          f"pristine session's {ref['anf']} (not equal modulo renaming of "
+                          f"contracted indices and tensor symmetries); text: {a.get('full')}",
+                          template=tid)
+                return
         if a.get("skel") is not None and ref.get("skel") is not None:
             self.counts["H1_struct"] += 1
             if (a["skel"], a.get("nterms")) != (ref["skel"], ref.get("nterms")):
@@ -589,7 +610,7 @@ class C19Session:
             if out is not None:
                 if st["op"] == "req":
                     ev["a"] = {k: out.get(k) for k in ("outcome", "fp", "text", "skel",
-                                                      "nterms", "kind", "keys")}
+                                                      "nterms", "kind", "keys", "anf")}
                     self.compare(st, out)
                     if self.job.get("want_full"):
                         ev["full"] = out.get("full")
@@ -617,7 +638,8 @@ class C19Session:
             st = {"op": "req", "t": tid}
             ev = {"i": self.cur_step, "op": "req", "t": tid, "reissue": True}
             out = self.do_step(st)
-            ev["a"] = {k: out.get(k) for k in ("outcome", "fp", "text", "skel", "nterms")}
+            ev["a"] = {k: out.get(k) for k in ("outcome", "fp", "text", "skel", "nterms",
+                                               "anf")}
             self.compare(st, out)
             ev["reg"] = digest(self.model.state_digest_tuple(), 6)
             self.events.append(ev)
